@@ -62,12 +62,16 @@ func (d *Dumper) dump(sb *strings.Builder, v reflect.Value) {
 	}
 	switch t.Kind() {
 	case reflect.Interface:
-		if v.IsNil() {
-			sb.WriteString("nil")
+		if t.NumMethod() == 0 {
+			if v.IsNil() {
+				fmt.Fprintf(sb, "a%d", d.AnyID(nil))
+			} else {
+				fmt.Fprintf(sb, "a%d", d.AnyID(v.Interface()))
+			}
 			return
 		}
-		if t.NumMethod() == 0 {
-			fmt.Fprintf(sb, "a%d", d.AnyID(v.Interface()))
+		if v.IsNil() {
+			sb.WriteString("nil")
 			return
 		}
 		e := v.Elem()
